@@ -327,6 +327,26 @@ def bootstrap_case(rng, hosts, unreachable):
             "meta": {"kind": "bootstrap", "hosts": list(hosts), "u1": list(unreachable), "u2": u2}}
 
 
+def write_fails_case(rng, full, nfirst):
+    """the first bootstrap host(s) were reachable for an earlier load (their connections are pooled) but the stream now refuses the
+    write of the metadata request: such a host cannot be reached any more, the next one is asked"""
+    spec = {"brokers": {1: (b"b1", 9092), 2: (b"b2", 9093)},
+            "topics": {b"ta": [1, 2, -1], b"tb": [2]}, "logs": {}}
+    hosts = [b"b1:9092", b"b2:9093"] if rng.random() < 0.5 else [b"b2:9093", b"b1:9092"]
+    if nfirst == 2:
+        hosts = hosts + [b"x9:9"]          # a third host that does not exist: with both real ones failing nothing is reachable
+    ops = [T("client_new", [list(hosts)]), T("load_metadata_all"), T("topics")]
+    if nfirst == 2:
+        # make the second host's connection pooled as well (it leads partitions of both topics)
+        ops.append(T("fetch_offsets", [[b"ta", b"tb"], T("latest")]))
+    failing = T("load_metadata_all") if full else T("load_metadata", [[b"tb"]])
+    ops += [{"op": failing, "plan": {"write": {k: ["fail", rng.choice(["other", "timeout"])] for k in range(nfirst)}}, "write_fails": nfirst,
+             "unreachable": [b"x9:9"]},
+            T("topics")]
+    return {"cluster": spec, "ops": ops, "unreachable": [b"x9:9"],
+            "meta": {"kind": "bootstrap", "hosts": list(hosts), "u1": [], "u2": [], "write_fails": nfirst}}
+
+
 def failed_load_case(rng, hosts, full):
     """a load that fails AFTER an earlier successful one: with an idle time-out of zero every call reconnects, so making every
     bootstrap host unreachable makes the load fail; a full load has then forgotten everything, a named load has changed nothing"""
@@ -364,6 +384,8 @@ def gen(rng, tier):
                     if isinstance(it, dict) and it.get("unreachable") == []:
                         it["unreachable"] = [b"x1:1"]
             cases.append(c)
+    for k in range(8 if tier == "quick" else 40):
+        cases.append(write_fails_case(rng, full=(k % 2 == 0), nfirst=1))
     nh = 1200 if tier == "quick" else 16000
     for k in range(nh):
         cases.append(history_case(rng, nops=1 + k % 8))
@@ -474,12 +496,20 @@ def oracle(case, recs, cl):
                 connected = set()       # idle time-out zero: every call connects anew
             first = None
             exp_conn = []
+            wf = item.get("write_fails", 0) if isinstance(item, dict) else 0      # writes refused by the stream, in order
             for h in hosts:
                 if h in connected:
+                    if wf:
+                        wf -= 1
+                        continue
                     first = h
                     break
                 exp_conn.append((h, 0 if h in unreachable else 1))
                 if h not in unreachable:
+                    if wf:
+                        wf -= 1
+                        connected.add(h)
+                        continue
                     first = h
                     break
             got = [(h, kproto.parse_request(p)["api"]) for h, p in rec["requests"]]
